@@ -465,8 +465,8 @@ def _null_decisions(atoms):
     return sum(1 for a in atoms if a[0] == 'bool' and a[1][0] == 'call' and a[1][1].endswith('::is_null') and a[2] is True)
 
 
-def r5_drain_before_allocator(ctx):
-    ctx.set_rule('C15.R5')
+def r5_drain_before_allocator(ctx, rule='C15.R5'):
+    ctx.set_rule(rule)
     P = ctx.P
     q = P.adts.get('des_cqueue::stable::CQueue')
     if not ctx.check(q is not None, 'cqueue-adt', 'CQueue type present'):
